@@ -2,7 +2,7 @@ from typing import List, Set
 
 from classy_blocks.grading.chop import Chop
 from classy_blocks.items.wires.manager import WireChopManager, WireManagerBase, WirePropagateManager
-from classy_blocks.items.wires.wire import Wire
+from classy_blocks.items.wires.wire import OrderedSet, Wire
 from classy_blocks.types import AxisType
 
 # Edge grading
@@ -41,7 +41,7 @@ class Axis:
         self.wires: WireManagerBase = WirePropagateManager(wires)
 
         # will be added as blocks are added to mesh
-        self.neighbours: Set[Axis] = set()
+        self.neighbours: Set[Axis] = OrderedSet()
 
     def add_neighbour(self, axis: "Axis") -> None:
         """Adds an 'axis' from another block if it shares at least one wire"""
